@@ -24,7 +24,7 @@ from harness import net_common
 def run(ctx):
     ctx.mc("net", "Connector", "MC_Connector.cfg",
            required_actions=["Start", "SucceedAny", "FailAny", "PairAny", "HE", "CT"], timeout=ctx.pick(900, 3000))
-    ctx.mc("net", "Connector", "MC_Connector.cfg", overrides={"MaxN": ctx.pick(2, 3), "Modes": '{"async", "sync", "sockerr", "streamerr"}'},
+    ctx.mc("net", "Connector", "MC_Connector.cfg", overrides={"MaxN": ctx.pick(2, 3), "Modes": '{"async", "sync", "sockerr", "streamerr", "binderr"}'},
            required_actions=["Start", "SucceedAny", "FailAny", "HE", "CT"], timeout=ctx.pick(900, 3000))
     net_common.s2c_connector(ctx, "GenG_Connector.cfg", {"MaxN": ctx.pick(3, 4)})
     net_common.s2c_connector(ctx, "GenG_ConnectorCreate.cfg", {"MaxN": ctx.pick(2, 3)}, label="s2c-create")
